@@ -335,6 +335,11 @@ Definition compute_cuts (sens : nat) (dec : nat -> bool) (bps : list bp) : list 
 Definition cuts_in_envelope (sens : nat) (bps : list bp) (obs : list nat) : bool :=
   natlist_eqb (compute_cuts sens (fun idx => memN (fst (nth idx bps (O, false))) obs) bps) obs.
 
+(* the same with the decisions supplied per breakpoint index (the harness derives them from the observed cuts by
+   walking the breakpoints; needed when equal positions are not adjacent, i.e. for unsorted breakpoint lists) *)
+Definition cuts_replay (sens : nat) (decs : list bool) (bps : list bp) (obs : list nat) : bool :=
+  natlist_eqb (compute_cuts sens (fun idx => nth idx decs false) bps) obs.
+
 Fixpoint strictly_incN (l : list nat) : bool :=
   match l with
   | x :: ((y :: _) as t) => (x <? y)%nat && strictly_incN t
